@@ -44,6 +44,8 @@ fn harvest(prop: &'static str, cfg: &PeerCfg, sim: &mut PeerSim, out: &mut CaseO
     out.count("syns_carrying_data", st.syns_with_data);
     out.count("cooperative_epilogues", st.coop_epilogues);
     out.count("cooperative_epilogues_completed", st.coop_completed);
+    out.count("owed_retransmission_checks", st.owed_retransmission_checks);
+    out.count("sack_blocks_checked", st.sack_blocks_checked);
     out.count("runs_with_finished", st.finished as u64);
     out.count("runs_with_seq_wrap", st.wrap as u64);
     out.count("max_ranges_open", st.max_holes as u64);
@@ -115,6 +117,9 @@ pub fn c04_case(i: u64, r: &mut Rng, c: &Ctx) -> CaseOut {
 }
 pub fn c17_case(i: u64, r: &mut Rng, c: &Ctx) -> CaseOut {
     run_peer("C17", 1, i, r, c)
+}
+pub fn c02_peer_case(i: u64, r: &mut Rng, c: &Ctx) -> CaseOut {
+    run_peer("C02", 2, i, r, c)
 }
 pub fn c05_peer_case(i: u64, r: &mut Rng, c: &Ctx) -> CaseOut {
     run_peer("C05", 2, i, r, c)
